@@ -2,7 +2,7 @@
    XOR over the cycled key; PKCS7(128) padding and CBC chaining over an abstract
    16-byte block primitive (the AES-256 block function of `cryptography`, not code of this
    repository, enters as a parameter).  Definitions only. *)
-From Coq Require Import ZArith NArith List Bool.
+From Coq Require Import ZArith NArith String List Bool.
 From Cinco Require Import Base.
 Import ListNotations.
 Open Scope Z_scope.
@@ -87,3 +87,32 @@ Section CBC.
            | None => Err EValue
            end.
 End CBC.
+
+(* ---- the `crypto` correspondence stream: KeyFile.encrypt / decrypt under an open context ---- *)
+(* The AES block function is not code of this repository: the harness supplies, per case, the table of
+   the 16-byte block encryptions / decryptions under the case's key that it obtained from
+   `cryptography`'s AES-ECB directly.  A block missing from the table is a harness error and shows up
+   as a disagreement. *)
+Local Open Scope string_scope.
+Definition tbl := list (bytes * bytes).
+Definition tbl_fun (t : tbl) (b : bytes) : bytes :=
+  match assoc bytes_eqb b t with Some x => x | None => [] end.
+
+Inductive cmethod := CXor | CAes | CBest | CBogus.
+Inductive cop :=
+| CEnc (m : cmethod) (iv pt : bytes)     (* iv = the os.urandom(16) draw the call will see *)
+| CDec (m : cmethod) (ct : bytes).
+
+Definition o_rbytes (r : res bytes) : pyval :=
+  match r with Ok b => PTuple [o_str "ok"; PBytes b] | Err e => PTuple [o_str "err"; o_errk e] | Unmodelled => o_str "unmodelled" end.
+
+Definition run_crypto (c : bytes * tbl * tbl * cop) : pyval :=
+  let '(key, et, dt, op) := c in
+  match op with
+  | CEnc CXor _ pt => PTuple [o_str "xor"; PBytes (xor_cycle key pt)]
+  | CEnc CAes iv pt | CEnc CBest iv pt => PTuple [o_str "aes"; PBytes (aes_encrypt (tbl_fun et) iv pt)]
+  | CEnc CBogus _ _ => PTuple [o_str "err"; o_errk EType]
+  | CDec CXor ct => o_rbytes (Ok (xor_cycle key ct))
+  | CDec CAes ct | CDec CBest ct => o_rbytes (aes_decrypt (tbl_fun dt) ct)
+  | CDec CBogus _ => o_rbytes (Err EType)
+  end.
